@@ -3,6 +3,7 @@ pub mod c02;
 pub mod c03;
 pub mod c04;
 pub mod c05;
+pub mod c06;
 pub mod c07;
 pub mod c08;
 pub mod c09;
@@ -15,5 +16,5 @@ pub mod c20;
 use crate::run::Prop;
 
 pub fn all() -> Vec<Prop> {
-  vec![c01::prop(), c02::prop(), c03::prop(), c04::prop(), c05::prop(), c07::prop(), c08::prop(), c09::prop(), c13::prop(), c16::prop(), c17::prop(), c18::prop(), c20::prop()]
+  vec![c01::prop(), c02::prop(), c03::prop(), c04::prop(), c05::prop(), c06::prop(), c07::prop(), c08::prop(), c09::prop(), c13::prop(), c16::prop(), c17::prop(), c18::prop(), c20::prop()]
 }
